@@ -563,3 +563,8 @@ m("c14-allocate-gives-up-never", "C14", "nomt/src/bitbox/mod.rs",
   "        i += 1;\n        if i >= 10000 {\n            // Give up.\n            return None;\n        }",
   "        i += 1;\n        if i >= 10000 {\n            // Keep trying: the table may free up.\n            i = 0;\n        }",
   "R7|bitbox::allocate_bucket|loop#1|unbounded")
+
+m("c14-wal-read-error-swallowed", "C14", "nomt/src/bitbox/wal/read.rs",
+  "                Err(e) => return Err(e.into()),\n            };\n            pn += 1;",
+  "                Err(_) => break,\n            };\n            pn += 1;",
+  "R1|bitbox::wal::read::WalBlobReader::new")
